@@ -1,18 +1,24 @@
 (* Props/C08.v — a failed elaboration, export or generator call does not poison later ones.
    Statements only; each is closed by a lemma of Proofs/C08Proofs.v.  The machine is Model/C08PassFail.v with the
-   `repaired` policy (the code after fix C08-1) resp. Model/C08GenFail.v with cleanup = true (fix C08-2).
+   `repaired` policy (the code after fixes C08-1, C08-3, C08-4) resp. Model/C08GenFail.v with policy GFinally (fix C08-2).
+   Neither policy tells an `Exception` from any other `BaseException` (error identities c < 0, failure kinds >= 2): every
+   theorem below holds whatever ends a pass body or a generator body; the variants that do tell them apart are refuted.
    Quantification: ANY state reachable by ANY history of calls; a call is ANY pass list (custom lists included), ANY tops,
    ANY design graph (cyclic ones included), ANY failure oracle — which pass body raises in which module. *)
-Require Import Hdl21.Base.PyInt Hdl21.Model.C08PassFail Hdl21.Model.C08GenFail Hdl21.Proofs.C08Proofs Hdl21.Proofs.C08Fuel.
+Require Import Hdl21.Base.PyInt Hdl21.Model.C08PassFail Hdl21.Model.C08GenFail Hdl21.Proofs.C08Proofs Hdl21.Proofs.C08Fuel
+               Hdl21.Proofs.C08Sweep.
 Require Import Hdl21Gen.C08Passes.
 From Coq Require Import String.
 Open Scope list_scope.
 
 (* 0. the regenerated pass table is adequate: the tree has the failure record (consulted by elaborate_module_base and by
       the exporter), every default pass in which the source scan finds an in-place change of a Module is declared
-      rewriting, and a pass that sets _elaborated is not one of those *)
+      rewriting, and a pass that sets _elaborated is not one of those; the exception handling has the shape the policy
+      `repaired` / GFinally stands for (removal from `pending` and `stack.pop` in `finally` clauses that directly follow the
+      insertion, the record made by a bare / BaseException handler) and elaborate_tops sweeps `modules_below(tops)` *)
 Definition c08_table_ok : bool :=
-  c08_has_failure_record &&
+  c08_has_failure_record && c08_pass_pending_finally && c08_pass_record_base && c08_pass_sweep &&
+  c08_gen_pending_finally && c08_gen_stack_finally &&
   forallb (fun e : string * nat * bool * bool * bool * string =>
              let '(_, _, rw, mk, mut, _) := e in implb mut rw && implb mk (negb mut)) c08_passes &&
   existsb (fun e : string * nat * bool * bool * bool * string => let '(_, _, _, mk, _, _) := e in mk) c08_passes.
@@ -96,39 +102,160 @@ Theorem C08_frame_call R s1 s2 c :
 Proof. exact (frame_call R s1 s2 c). Qed.
 Print Assumptions C08_frame_call.
 
+(* 4b. (fix C08-4) a call that succeeds has completed EVERY pass of its list on EVERY module of its design, whatever the
+       history — earlier failures, modules re-targeted since, passes that some earlier call already completed on the parents —
+       and every module of a returned package has been completed by every pass and carries no failure record:
+       no module is exported that some pass of the list has not (or only half) rewritten *)
+Theorem C08_success_completes_design s c :
+  snd (fst (do_call repaired s c)) = None ->
+  forall p m, In p (c_passes c) -> In m (reach c) ->
+    memp (pid p, m) (done (fst (fst (do_call repaired s c)))) = true /\
+    rec_of m (failed (fst (fst (do_call repaired s c)))) = None.
+Proof. exact (success_completes s c). Qed.
+Print Assumptions C08_success_completes_design.
+
+Theorem C08_exported_were_completed s c m p :
+  In m (snd (do_call repaired s c)) -> In p (c_passes c) ->
+  memp (pid p, m) (done (fst (fst (do_call repaired s c)))) = true /\
+  rec_of m (failed (fst (fst (do_call repaired s c)))) = None.
+Proof. exact (exported_completed s c m p). Qed.
+Print Assumptions C08_exported_were_completed.
+
+(* `reach c`, the design of a call, is what the statement above says it is: it contains the tops and is closed under
+   instantiation (the depth-first walk of the model never runs out of its recursion bound) *)
+Theorem C08_design_is_closed c :
+  (forall t, In t (c_tops c) -> In t (reach c)) /\
+  forall x cs ch, In x (reach c) -> assoc_kids (c_kids c) x = Some cs -> In ch cs -> In ch (reach c).
+Proof. exact (reach_closed c). Qed.
+Print Assumptions C08_design_is_closed.
+
+(* without the sweep (the code after C08-1 .. C08-3): refuted, by the "repair and retry" continuation itself.  Top(1) ->
+   Bad(0); pass 0 completes on both, the rewriting pass 1 fails in Bad.  Bad is refused for good, so the designer
+   re-creates it as New(2) and points Top's instance at it.  The next call succeeds and returns a package with New
+   although pass 0 never ran on it (in the code: its port references were never resolved, and the checking pass reports a
+   spurious "Missing connection"); with the sweep pass 0 does run on New *)
+Definition retarget_c1 : call :=
+  {| c_kids := [(0, []); (1, [0])]%nat;
+     c_passes := [{| pid := 0; prw := true; pmk := false |}; {| pid := 1; prw := true; pmk := false |}];
+     c_tops := [1%nat]; c_fail := [(1%nat, 0%nat, 7)]; c_export := true |}.
+Definition retarget_c2 : call :=
+  {| c_kids := [(0, []); (2, []); (1, [2])]%nat;
+     c_passes := [{| pid := 0; prw := true; pmk := false |}; {| pid := 1; prw := true; pmk := false |}];
+     c_tops := [1%nat]; c_fail := []; c_export := true |}.
+Theorem C08_success_completes_design_refuted_without_sweep :
+  let s1 := fst (fst (do_call no_sweep init retarget_c1)) in
+  let r2 := do_call no_sweep s1 retarget_c2 in
+  snd (fst (do_call no_sweep init retarget_c1)) = Some (CE 7) /\
+  snd (fst r2) = None /\ snd r2 = [2; 1]%nat /\ In 2%nat (reach retarget_c2) /\
+  memp (0, 2)%nat (done (fst (fst r2))) = false /\
+  (* the repaired bookkeeping on the same history *)
+  memp (0, 2)%nat (done (fst (fst (do_call repaired (fst (fst (do_call repaired init retarget_c1))) retarget_c2)))) = true.
+Proof. vm_compute. repeat split; auto. Qed.
+Print Assumptions C08_success_completes_design_refuted_without_sweep.
+
+(* 4c. a module that instantiates a module carrying a failure record is never completed by any pass, never recorded
+       itself and never marked elaborated, by any call: a parent built around a failed module AFTER the failure stays as it
+       was built (the record is looked at before the done-set), so that pointing its instances at a re-created module later
+       meets no half-way state (with C08_frame_call: it is elaborated as from a fresh state) *)
+Theorem C08_parent_of_failed_untouched s c x b cs :
+  assoc_kids (c_kids c) x = Some cs -> In b cs -> rec_of b (failed s) <> None ->
+  let s' := fst (fst (do_call repaired s c)) in
+  (forall q, memp (q, x) (done s') = memp (q, x) (done s)) /\ rec_of x (failed s') = rec_of x (failed s) /\
+  memn x (elab s') = memn x (elab s).
+Proof. intros Hk Hb HB. exact (do_call_untouched s c x b cs Hk Hb HB). Qed.
+Print Assumptions C08_parent_of_failed_untouched.
+
+(* 2b. the record made by `except Exception` only (the code after C08-1 alone): refuted.  A KeyboardInterrupt (error
+       identity -1) ends the rewriting pass in Bad: Bad is half-rewritten and unrecorded, and the retry exports it.
+       The removal from `pending` by `except Exception` instead of `finally`: refuted as well — Top and Bad stay pending and
+       the retry reports a circular dependency in Top *)
+Theorem C08_interrupt_refuted_on_except_exception :
+  (let s1 := fst (fst (do_call record_exc_only init (wit_call [(0%nat, 0%nat, -1)]))) in
+   snd (fst (do_call record_exc_only init (wit_call [(0%nat, 0%nat, -1)]))) = Some (CE (-1)) /\
+   In 0%nat (half s1) /\ failed s1 = [] /\
+   snd (fst (do_call record_exc_only s1 (wit_call []))) = None /\ In 0%nat (snd (do_call record_exc_only s1 (wit_call [])))) /\
+  (let s1 := fst (fst (do_call cleanup_exc_only init (wit_call [(0%nat, 0%nat, -1)]))) in
+   pend s1 = [(0, 0); (0, 1)]%nat /\
+   snd (fst (do_call cleanup_exc_only s1 (wit_call [(0%nat, 0%nat, -1)]))) = Some (CCycle 1)) /\
+  (* an Exception (identity 7) is handled by both variants as by the repaired code *)
+  (let s1 := fst (fst (do_call record_exc_only init (wit_call [(0%nat, 0%nat, 7)]))) in failed s1 = [(0%nat, 7)] /\ pend s1 = []) /\
+  (let s1 := fst (fst (do_call cleanup_exc_only init (wit_call [(0%nat, 0%nat, 7)]))) in failed s1 = [(0%nat, 7)] /\ pend s1 = []) /\
+  (* the repaired code on the interrupted history: recorded, nothing pending, the retry reports the interrupt again *)
+  (let s1 := fst (fst (do_call repaired init (wit_call [(0%nat, 0%nat, -1)]))) in
+   failed s1 = [(0%nat, -1)] /\ pend s1 = [] /\ do_call repaired s1 (wit_call []) = (s1, Some (CE (-1)), [])).
+Proof. vm_compute. repeat split; auto. Qed.
+Print Assumptions C08_interrupt_refuted_on_except_exception.
+
+(* KNOWN FINDING (tools/findings/C08.json; not repaired).  What the sweep does not reach is the CONTENT of a healthy module
+   of a failed design: the passes before the failing one have completed it, and - unlike a module whose elaboration
+   succeeded, which refuses additions - it still accepts them; no completed pass runs its body on it again, whatever
+   that body would do with the additions.  Top(2) -> [Sib(0); Bad(1)]; the rewriting pass 1 fails in Bad after pass 0
+   completed all three; then Sib alone: for EVERY behaviour of pass 0 on Sib (even raising `code`) the call succeeds
+   without running it.  (In the code: port references added to Sib are never resolved, and the call reports a spurious
+   "Missing connection" where a fresh process returns a package.) *)
+Theorem C08_completed_pass_never_sees_later_additions code :
+  let c1 := {| c_kids := [(0, []); (1, []); (2, [0; 1])]%nat;
+               c_passes := [{| pid := 0; prw := true; pmk := false |}; {| pid := 1; prw := true; pmk := false |}];
+               c_tops := [2%nat]; c_fail := [(1%nat, 1%nat, 7)]; c_export := true |} in
+  let c2 := {| c_kids := [(0, []); (1, []); (2, [0; 1])]%nat;
+               c_passes := [{| pid := 0; prw := true; pmk := false |}; {| pid := 1; prw := true; pmk := false |}];
+               c_tops := [0%nat]; c_fail := [(0%nat, 0%nat, code)]; c_export := true |} in
+  let s1 := fst (fst (do_call repaired init c1)) in
+  snd (fst (do_call repaired init c1)) = Some (CE 7) /\ memp (0, 0)%nat (done s1) = true /\ memn 0%nat (elab s1) = false /\
+  snd (fst (do_call repaired s1 c2)) = None /\ snd (do_call repaired s1 c2) = [0%nat].
+Proof. vm_compute. repeat split. Qed.
+Print Assumptions C08_completed_pass_never_sees_later_additions.
+
 (* the model's recursion bound (number of modules of the design + 1) is never the reason an elaboration fails: CFuel is
    unreachable for every pass list, tops, design graph (cyclic ones included), oracle and starting state.
    (The EXPORT walk of a cyclic graph that no pass has looked at - an empty pass list - does exhaust it, as the code
    exhausts Python's recursion limit there.) *)
 Theorem C08_fuel_suffices s c :
   snd (run_passes repaired (assoc_kids (c_kids c)) (assoc_fail (c_fail c)) (call_fuel c) (c_passes c) (c_tops c) s) <> Some CFuel.
-Proof. exact (fuel_passes (c_kids c) (assoc_fail (c_fail c)) (c_tops c) (c_passes c) s). Qed.
+Proof. exact (fuel_passes (c_kids c) (assoc_fail (c_fail c)) _ (c_passes c) s). Qed.
 Print Assumptions C08_fuel_suffices.
 
-(* 5. generators: a call that raises — in its own body, in a nested call, or by a genuine cycle — leaves nothing pending
-      and nothing on the stack; it is not cached, and the next call runs the body again *)
-Theorem C08_generator_cache_restored calls gf fuel s k :
-  gpend (fst (grun true calls gf fuel s k)) = gpend s /\ gstack (fst (grun true calls gf fuel s k)) = gstack s.
+(* 5. generators: a call that ends with ANY failure — an Exception or any other BaseException raised by its own body, a
+      body that returns no Module, a failing nested call, a genuine cycle — of a cached or an uncached generator leaves
+      nothing pending and nothing on the stack; it is not cached, and the next call runs the body again *)
+Theorem C08_generator_cache_restored cached calls gf fuel s k :
+  gpend (fst (grun GFinally cached calls gf fuel s k)) = gpend s /\ gstack (fst (grun GFinally cached calls gf fuel s k)) = gstack s.
 Proof.
-  destruct (grun true calls gf fuel s k) as [s' o] eqn:E. destruct (grun_good calls gf fuel _ _ _ _ E) as (A & B & _). split; assumption.
+  destruct (grun GFinally cached calls gf fuel s k) as [s' o] eqn:E. destruct (grun_good cached calls gf fuel _ _ _ _ E) as (A1 & A2 & _). split; assumption.
 Qed.
 Print Assumptions C08_generator_cache_restored.
 
-Theorem C08_generator_rerun calls gf fuel n s k e :
+Theorem C08_generator_rerun cached calls gf fuel n s k e :
   gpend s = [] ->
-  snd (grun true calls gf (S fuel) s k) = Some e ->
-  let s' := fst (grun true calls gf (S fuel) s k) in
-  gpend s' = [] /\ gstack s' = gstack s /\ gmem k (gdone s') = false /\
-  exists l, gruns (fst (grun true calls gf (S n) s' k)) = l ++ k :: gruns s'.
-Proof. exact (gen_rerun calls gf fuel n s k e). Qed.
+  snd (grun GFinally cached calls gf (S fuel) s k) = Some e ->
+  let s' := fst (grun GFinally cached calls gf (S fuel) s k) in
+  gpend s' = [] /\ gstack s' = gstack s /\ cached k && gmem k (gdone s') = false /\
+  exists l, gruns (fst (grun GFinally cached calls gf (S n) s' k)) = l ++ k :: gruns s'.
+Proof. exact (gen_rerun cached calls gf fuel n s k e). Qed.
 Print Assumptions C08_generator_rerun.
 
 Theorem C08_generator_pending_refuted_on_pinned :
-  exists gf, let s1 := fst (grun false (fun _ => []) gf 3 ginit 0%nat) in
-    snd (grun false (fun _ => []) gf 3 ginit 0%nat) = Some (GE 0) /\ gpend s1 <> [] /\
-    snd (grun false (fun _ => []) (fun _ _ => None) 3 s1 0%nat) = Some (GCycle 0).
-Proof. exists (fun _ _ => Some 0%nat). vm_compute. repeat split. discriminate. Qed.
+  exists gf, let s1 := fst (grun GNever (fun _ => true) (fun _ => []) gf 3 ginit 0%nat) in
+    snd (grun GNever (fun _ => true) (fun _ => []) gf 3 ginit 0%nat) = Some (GE 0 0) /\ gpend s1 <> [] /\
+    snd (grun GNever (fun _ => true) (fun _ => []) (fun _ _ => None) 3 s1 0%nat) = Some (GCycle 0).
+Proof. exists (fun _ _ => Some (0%nat, 0%nat)). vm_compute. repeat split. discriminate. Qed.
 Print Assumptions C08_generator_pending_refuted_on_pinned.
+
+(* `except Exception: pending.remove(call); raise` in place of `finally` (a seeded change): refuted.  Outer(1) calls
+   Inner(0) whose body is ended by a KeyboardInterrupt (kind 2): both stay pending although the stack is unwound, and
+   calling either again reports a circular dependency without running the body; an Exception (kind 0) is handled *)
+Theorem C08_generator_refuted_on_except_exception :
+  let calls := fun k => match k with 1%nat => [0%nat] | _ => [] end in
+  let interrupted := fun k (_ : nat) => match k with 0%nat => Some (0%nat, 2%nat) | _ => None end in
+  let s1 := fst (grun GExcOnly (fun _ => true) calls interrupted 4 ginit 1%nat) in
+  snd (grun GExcOnly (fun _ => true) calls interrupted 4 ginit 1%nat) = Some (GE 0 2) /\
+  gpend s1 = [0; 1]%nat /\ gstack s1 = [] /\
+  snd (grun GExcOnly (fun _ => true) calls (fun _ _ => None) 4 s1 1%nat) = Some (GCycle 1) /\
+  snd (grun GExcOnly (fun _ => true) calls (fun _ _ => None) 4 s1 0%nat) = Some (GCycle 0) /\
+  gruns (fst (grun GExcOnly (fun _ => true) calls (fun _ _ => None) 4 s1 0%nat)) = gruns s1 /\
+  gpend (fst (grun GExcOnly (fun _ => true) calls (fun k _ => match k with 0%nat => Some (0%nat, 0%nat) | _ => None end) 4 ginit 1%nat)) = [].
+Proof. vm_compute. repeat split. Qed.
+Print Assumptions C08_generator_refuted_on_except_exception.
 
 (* ---- non-vacuity *)
 (* Top(2) -> [Leaf(0); Bad(1)], two passes: a checking pass 0 and a rewriting pass 1 whose body raises 7 in Bad *)
@@ -149,6 +276,26 @@ Example C08_ex_sticky :
   snd (do_call repaired init (ex_call [] [3%nat])) = [0; 3]%nat.
 Proof. vm_compute. repeat split. Qed.
 
+(* "repair and retry" by re-creating the failed module: Top(2) -> [Leaf(0); Bad(1)], Bad fails in the rewriting pass 1 after
+   the checking pass 0 completed on everything.  New(4) replaces Bad in Top: the retry succeeds, exports New, and every
+   pass has run on New; a new parent NP(5) built around Bad is refused untouched, and accepted once re-targeted *)
+Definition ex_kids2 (bad : nat) : list (nat * list nat) := [(0, []); (1, [0]); (4, [0]); (2, [0; bad]); (5, [bad; 0])]%nat.
+Definition ex_call2 (bad : nat) (fl : list (nat * nat * Z)) (tops : list nat) : call :=
+  {| c_kids := ex_kids2 bad;
+     c_passes := [{| pid := 0; prw := false; pmk := false |}; {| pid := 1; prw := true; pmk := false |}; {| pid := 2; prw := false; pmk := true |}];
+     c_tops := tops; c_fail := fl; c_export := true |}.
+Example C08_ex_retarget :
+  let s1 := fst (fst (do_call repaired init (ex_call2 1 [(1%nat, 1%nat, 7)] [2%nat]))) in
+  snd (fst (do_call repaired init (ex_call2 1 [(1%nat, 1%nat, 7)] [2%nat]))) = Some (CE 7) /\
+  memp (0, 2)%nat (done s1) = true /\                                        (* pass 0 is done with Top *)
+  let r2 := do_call repaired s1 (ex_call2 4 [] [2%nat]) in
+  snd (fst r2) = None /\ snd r2 = [0; 4; 2]%nat /\ snd r2 = snd (do_call repaired init (ex_call2 4 [] [2%nat])) /\
+  memp (0, 4)%nat (done (fst (fst r2))) = true /\
+  let r3 := do_call repaired s1 (ex_call2 1 [] [5%nat]) in                  (* a new parent of Bad *)
+  snd (fst r3) = Some (CE 7) /\ memp (0, 5)%nat (done (fst (fst r3))) = false /\
+  snd (do_call repaired (fst (fst r3)) (ex_call2 4 [] [5%nat])) = [0; 4; 5]%nat.
+Proof. vm_compute. repeat split. Qed.
+
 (* generality of the model: a pass whose failures are NOT recorded (prw = false; no default pass is declared so by the final
    repair, a tree could): same error on retry, success once the fault is gone *)
 Example C08_ex_check_pass :
@@ -166,9 +313,12 @@ Proof. vm_compute. repeat split; auto. Qed.
 
 Example C08_ex_generator :
   let calls := fun k => match k with 2%nat => [1; 0]%nat | 1%nat => [0%nat] | _ => [] end in
-  let s1 := fst (grun true calls (fun k _ => match k with 0%nat => Some 0%nat | _ => None end) 4 ginit 2%nat) in
-  snd (grun true calls (fun k _ => match k with 0%nat => Some 0%nat | _ => None end) 4 ginit 2%nat) = Some (GE 0) /\
+  let cached := fun k => negb (Nat.eqb k 1) in                       (* generator 1 has enable_cache=False *)
+  let boom := fun k (_ : nat) => match k with 0%nat => Some (0%nat, 3%nat) | _ => None end in      (* SystemExit in the body of 0 *)
+  let s1 := fst (grun GFinally cached calls boom 4 ginit 2%nat) in
+  snd (grun GFinally cached calls boom 4 ginit 2%nat) = Some (GE 0 3) /\
   gpend s1 = [] /\ gstack s1 = [] /\ gdone s1 = [] /\
-  snd (grun true calls (fun _ _ => None) 4 s1 2%nat) = None /\
-  gruns (fst (grun true calls (fun _ _ => None) 4 s1 2%nat)) = [0; 1; 2; 0; 1; 2]%nat.
+  snd (grun GFinally cached calls (fun _ _ => None) 4 s1 2%nat) = None /\
+  gdone (fst (grun GFinally cached calls (fun _ _ => None) 4 s1 2%nat)) = [2; 0]%nat /\
+  gruns (fst (grun GFinally cached calls (fun _ _ => None) 4 s1 2%nat)) = [0; 1; 2; 0; 1; 2]%nat.
 Proof. vm_compute. repeat split. Qed.
